@@ -74,6 +74,24 @@ func (g genArtefact) describe() string {
 
 type genModel struct {
 	p *Prog
+	// bind: parameters of a writing helper bound to the arguments of the call site under analysis
+	bind map[*ssa.Parameter]ssa.Value
+}
+
+// deref replaces a bound parameter by the caller's argument.
+func (g *genModel) deref(v ssa.Value) ssa.Value {
+	for i := 0; i < 8; i++ {
+		prm, ok := v.(*ssa.Parameter)
+		if !ok {
+			return v
+		}
+		a, ok := g.bind[prm]
+		if !ok {
+			return v
+		}
+		v = a
+	}
+	return v
 }
 
 func constString(v ssa.Value) (string, bool) {
@@ -86,6 +104,7 @@ func constString(v ssa.Value) (string, bool) {
 
 // strExpr resolves a string-typed value into constant and range-element parts.
 func (g *genModel) strExpr(v ssa.Value) ([]strPart, error) {
+	v = g.deref(v)
 	if s, ok := constString(v); ok {
 		return []strPart{{Const: s}}, nil
 	}
@@ -170,9 +189,10 @@ func (g *genModel) bytesExpr(v ssa.Value, depth int) ([]tmplPart, error) {
 	if depth > 64 {
 		return nil, fmt.Errorf("template too deep")
 	}
+	v = g.deref(v)
 	switch v := v.(type) {
 	case *ssa.Convert:
-		if s, ok := constString(v.X); ok {
+		if s, ok := constString(g.deref(v.X)); ok {
 			return []tmplPart{{Const: s}}, nil
 		}
 	case *ssa.Call:
@@ -260,6 +280,7 @@ func (g *genModel) bytesExpr(v ssa.Value, depth int) ([]tmplPart, error) {
 
 // listExpr resolves a []string accumulated in a range over a decoded JSON list.
 func (g *genModel) listExpr(v ssa.Value) (*projection, error) {
+	v = g.deref(v)
 	phi, ok := v.(*ssa.Phi)
 	if !ok {
 		return nil, fmt.Errorf("%s: id list is not accumulated in a loop (%T)", g.p.pos(v.Pos()), v)
@@ -604,17 +625,47 @@ func extractGenerator(p *Prog) ([]genArtefact, []string, error) {
 				name := callee.String()
 				switch name {
 				case "os.WriteFile", "io/ioutil.WriteFile":
-					path, ok := constString(c.Call.Args[0])
-					if !ok {
-						undecided = append(undecided, fmt.Sprintf("%s: output path is not a constant", p.pos(c.Pos())))
-						continue
+					// a writing helper (path, header, ids as parameters) is analysed once per call site,
+					// with its parameters bound to that site's arguments
+					var binds []map[*ssa.Parameter]ssa.Value
+					var sitePos []token.Pos
+					if len(fn.Params) > 0 {
+						for _, caller := range p.AllModuleFuncs(p.CmdPkg) {
+							for _, cb := range caller.Blocks {
+								for _, cin := range cb.Instrs {
+									if cc, ok := cin.(*ssa.Call); ok && cc.Call.StaticCallee() == fn {
+										m := map[*ssa.Parameter]ssa.Value{}
+										for i, prm := range fn.Params {
+											if i < len(cc.Call.Args) {
+												m[prm] = cc.Call.Args[i]
+											}
+										}
+										binds = append(binds, m)
+										sitePos = append(sitePos, cc.Pos())
+									}
+								}
+							}
+						}
 					}
-					parts, err := g.bytesExpr(c.Call.Args[1], 0)
-					if err != nil {
-						undecided = append(undecided, fmt.Sprintf("%s: content of %s: %v", p.pos(c.Pos()), path, err))
-						continue
+					if len(binds) == 0 {
+						binds = append(binds, nil)
+						sitePos = append(sitePos, c.Pos())
 					}
-					arts = append(arts, genArtefact{Path: path, Parts: parts, Pos: c.Pos(), Fn: fn})
+					for bi, bnd := range binds {
+						g.bind = bnd
+						path, ok := constString(g.deref(c.Call.Args[0]))
+						if !ok {
+							undecided = append(undecided, fmt.Sprintf("%s: output path is not a constant", p.pos(sitePos[bi])))
+							continue
+						}
+						parts, err := g.bytesExpr(c.Call.Args[1], 0)
+						if err != nil {
+							undecided = append(undecided, fmt.Sprintf("%s: content of %s: %v", p.pos(sitePos[bi]), path, err))
+							continue
+						}
+						arts = append(arts, genArtefact{Path: path, Parts: parts, Pos: sitePos[bi], Fn: fn})
+					}
+					g.bind = nil
 				case "os.Create", "os.OpenFile", "(*os.File).Write", "(*os.File).WriteString", "(*os.File).WriteAt", "os.Rename", "os.Remove":
 					undecided = append(undecided, fmt.Sprintf("%s: generator uses %s, which the template extraction does not model", p.pos(c.Pos()), name))
 				}
